@@ -105,6 +105,31 @@ def register_to_df(hub):
     hub.on("FlodymArray.to_df", oracle)
 
 
+def truncation_case(rec, hub, rng, i):
+    """named columns, but the VALUES truncate (int()) exactly onto the items of an int-typed dimension"""
+    fd = hub.fd
+    years = [2000 + j for j in range(int(rng.integers(1, 4)))]
+    tdim = fd.Dimension(letter="t", name="time", items=list(years), dtype=int)
+    rdim = fd.Dimension(letter="r", name="region", items=["EUR", "USA"], dtype=str)
+    dims = fd.DimensionSet(dim_list=[tdim, rdim] if rng.random() < 0.5 else [rdim, tdim])
+    shape = dims.shape
+    # every year occurs as the integer part of some value
+    flat = np.array([years[j % len(years)] + float(rng.integers(1, 8)) / 8 for j in range(int(np.prod(shape)))])
+    values = rng.permutation(flat).reshape(shape)
+    rows = []
+    for idx in np.ndindex(*shape):
+        rows.append({d.name: d.items[k] for d, k in zip(dims, idx)} | {"value": float(values[idx])})
+    df = pd.DataFrame(rows)
+    rec.event(MF, sig=f"values-truncate-to-items|{len(years)}", cls="from_df|values-truncate-onto-an-int-dimension's-items")
+    try:
+        y = fd.FlodymArray.from_df(dims=dims, df=df)
+    except Exception as e:
+        rec.violation(MF, "from_df:value-column-mistaken-for-an-int-dimension-after-truncation", {"exc": repr(e)[:300], "years": years, "values_head": values.ravel()[:4].tolist()})
+        return
+    if not np.array_equal(y.values, values):
+        rec.violation(MF, "from_df:entry-under-wrong-label:values-truncate-to-items", {"years": years})
+
+
 def finding_mech(info, exc):
     if info.get("item_inferred_column_after_value_column") and isinstance(exc, ValueError):
         return "from_df:item-inferred-dimension-column-after-a-value-column"
@@ -272,12 +297,17 @@ def run(rec, hub, tier, seed, shard, nshards, budget):
         i = kk * nshards + shard
         rec.set_case(driver="c11.frame", seed=seed, tier=tier, shard=shard, nshards=nshards, idx=i)
         one(rec, hub, seed, tier, i)
+        if kk % 100 == 7:
+            rec.set_case(driver="c11.truncation", seed=seed, tier=tier, shard=shard, nshards=nshards, idx=i)
+            truncation_case(rec, hub, case_nprng(seed, "c11.truncation", 0, i), i)
 
 
 def replay(rec, hub, case):
     register_to_df(hub)
     rec.set_case(**case)
-    if case["driver"] == "c11.large":
+    if case["driver"] == "c11.truncation":
+        truncation_case(rec, hub, case_nprng(case["seed"], "c11.truncation", 0, case["idx"]), case["idx"])
+    elif case["driver"] == "c11.large":
         large_case(rec, hub, case["seed"])
     else:
         one(rec, hub, case["seed"], case.get("tier", "quick"), case["idx"])
